@@ -65,7 +65,8 @@ def _consts(cfgname):
     def num(name, default):
         m = re.search(r"^\s*%s\s*=\s*(\d+)" % name, src, re.M)
         return int(m.group(1)) if m else default
-    return {"R": num("Rmax", 2), "Msz": num("Msz", 0)}
+    hs = re.search(r'^\s*Handshake\s*=\s*"(\w+)"', src, re.M)
+    return {"R": num("Rmax", 2), "Msz": num("Msz", 0), "hs": hs.group(1) if hs else "none"}
 
 
 def _spec_of(o, k):
@@ -118,7 +119,8 @@ def export_scripts(cfgname, num, depth, seed, out_path, fam):
             raw = json.loads(body)
             seik = next((x["sei"] for x in raw if x["a"] == "resume"), "never")
             sei = {"zero": 0, "finite": 100, "never": 4294967295}[seik]
-            steps = [{"a": "reset", "run": n, "fam": fam, "R": c["R"], "M": 30 if c["Msz"] else None, "disc": "wake", "sei_connect": sei}]
+            steps = [{"a": "reset", "run": n, "fam": fam, "R": c["R"], "M": 30 if c["Msz"] else None, "disc": "wake", "sei_connect": sei,
+                      "defer": c["hs"] != "none", "auth": c["hs"] == "auth"}]
             last_ctx = False
             for st in raw:
                 if st["a"] == "call":
@@ -128,6 +130,11 @@ def export_scripts(cfgname, num, depth, seed, out_path, fam):
                     if not last_ctx:
                         steps.append(st)
                     last_ctx = True
+                elif st["a"] == "handshake":
+                    # the model starts inside connect(): what it did so far happened before the CONNACK
+                    steps.append({"a": "handshake", "R": c["R"], "M": 30 if c["Msz"] else None, "sei_connect": sei, "fam": fam, "run": n,
+                                  "defer": True, "auth": bool(st.get("auth"))})
+                    last_ctx = False
                 elif st["a"] == "resume":
                     # the connection was lost (run() has returned): record the disconnection and connect again
                     steps.append({"a": "markdisc", "secs": 150 if st["age"] == "after" else 0})
